@@ -7,6 +7,7 @@ import GoPipeline.Driver.C17
 import GoPipeline.Driver.C18
 import GoPipeline.Driver.C16
 import GoPipeline.Driver.C04
+import GoPipeline.Driver.C10
 open GoPipeline
 
 /-- Generic stateful line loop. -/
@@ -37,6 +38,7 @@ def main (args : List String) : IO UInt32 := do
   | ["c18"] => loop DriverC18.step inp out ()
   | ["c16"] => loop DriverC16.step inp out ()
   | ["c04"] => loop DriverC04.step inp out ()
+  | ["c10"] => loop DriverC10.step inp out ()
   | _ => do IO.eprintln "usage: driver <mode>"; return 2
   out.flush
   return 0
